@@ -20,6 +20,10 @@ pub enum Arr {
     Extrap { dmin: Vec<u64> },
     /// `arrival::ArrivalCurvePrefix::new(horizon, steps)`
     Prefix { horizon: u64, steps: Vec<(u64, usize)> },
+    /// `ArrivalCurvePrefix::from_arrival_bound_until(inner, horizon)` used as an arrival model for
+    /// the process that `inner` describes: either converted to a `Curve` (`as_curve`) or behind
+    /// `Propagated::with_jitter(.., 0)`. `inner` is a leaf that can release something.
+    Recorded { inner: Box<Arr>, horizon: u64, as_curve: bool },
     Never,
     /// `Propagated::with_jitter(&leaf, j)`; inner must be a leaf model.
     Propagated { inner: Box<Arr>, j: u64 },
@@ -74,6 +78,15 @@ impl Arr {
             Arr::Extrap { dmin } => Box::new(arrival::ExtrapolatingCurve::new(Self::build_curve(dmin))),
             Arr::Prefix { horizon, steps } => Box::new(Self::build_prefix(*horizon, steps)),
             Arr::Never => Box::new(arrival::Never {}),
+            Arr::Recorded { inner, horizon, as_curve } => {
+                let src = inner.build_raw();
+                let p = arrival::ArrivalCurvePrefix::from_arrival_bound_until(&src, d(*horizon));
+                if *as_curve {
+                    Box::new(arrival::Curve::from(p))
+                } else {
+                    Box::new(arrival::Propagated::with_jitter(&p, d(0)))
+                }
+            }
             Arr::Propagated { inner, j } => match &**inner {
                 Arr::Periodic { t } => {
                     Box::new(arrival::Propagated::with_jitter(&arrival::Periodic::new(d(*t)), d(*j)))
@@ -118,6 +131,8 @@ impl Arr {
             Arr::Extrap { .. } => "ExtrapolatingCurve",
             Arr::Prefix { .. } => "ArrivalCurvePrefix",
             Arr::Never => "Never",
+            Arr::Recorded { as_curve: true, .. } => "Curve::from(ArrivalCurvePrefix::from_arrival_bound_until)",
+            Arr::Recorded { .. } => "Propagated<ArrivalCurvePrefix::from_arrival_bound_until>",
             Arr::Propagated { .. } => "Propagated",
             Arr::Jittered { .. } => "clone_with_jitter",
             Arr::Sum { .. } => "Vec",
@@ -149,6 +164,8 @@ impl Arr {
                 "steps" => Json::Arr(steps.iter().map(|(x, n)| Json::Arr(vec![Json::from(*x), Json::from(*n)])).collect())}
             },
             Arr::Never => Json::from("Never"),
+            Arr::Recorded { inner, horizon, as_curve } => crate::jobj! {"from_arrival_bound_until" => inner.to_json(), "horizon" => *horizon,
+                "used_as" => if *as_curve { "Curve::from(prefix)" } else { "Propagated::with_jitter(&prefix, 0)" }},
             Arr::Propagated { inner, j } => crate::jobj! {"Propagated" => inner.to_json(), "jitter" => *j},
             Arr::Jittered { inner, j } => crate::jobj! {"clone_with_jitter" => inner.to_json(), "jitter" => *j},
             Arr::Sum { parts } => crate::jobj! {"Vec" => Json::Arr(parts.iter().map(|p| p.to_json()).collect())},
@@ -179,6 +196,10 @@ impl Arr {
                 }
             }
             Arr::Never => out.push(6),
+            Arr::Recorded { inner, horizon, as_curve } => {
+                out.extend([12, *horizon, *as_curve as u64]);
+                inner.words(out);
+            }
             Arr::Propagated { inner, j } => {
                 out.extend([7, *j]);
                 inner.words(out);
@@ -221,6 +242,8 @@ impl Arr {
                 }
             }
             Arr::Never => {}
+            // the process is the recorded source's; the prefix only bounds it
+            Arr::Recorded { inner, .. } => inner.collect(jitter, out),
             Arr::Propagated { inner, j } | Arr::Jittered { inner, j } => inner.collect(jitter + *j, out),
             Arr::Sum { parts } | Arr::RcSlice { parts } => parts.iter().for_each(|p| p.collect(jitter, out)),
             Arr::SumOf { a, b } => {
@@ -589,7 +612,24 @@ impl ArrGen {
             return self.leaf(rng);
         }
         let jmax = self.scale * self.max_jitter_factor.max(1);
-        match rng.range(0, 5) {
+        match rng.range(0, if self.allow_curve { 6 } else { 5 }) {
+            6 => {
+                let inner = loop {
+                    let l = self.leaf(rng);
+                    if matches!(l, Arr::Periodic { .. } | Arr::Sporadic { .. } | Arr::Curve { .. } | Arr::Extrap { .. }) {
+                        break l;
+                    }
+                };
+                // horizons: arbitrary, or exactly at / next to a step of the source
+                let horizon = if rng.chance(1, 2) {
+                    rng.range(1, 4 * self.scale)
+                } else {
+                    let steps: Vec<u64> = inner.build_raw().steps_iter().take(10).map(u64::from).collect();
+                    let s = *rng.pick(&steps);
+                    (s + rng.range(0, 2)).saturating_sub(1).max(1)
+                };
+                Arr::Recorded { inner: Box::new(inner), horizon, as_curve: rng.chance(1, 2) }
+            }
             0 => Arr::Propagated { inner: Box::new(self.leaf(rng)), j: rng.range(0, jmax) },
             1 => Arr::Jittered { inner: Box::new(self.any(rng, depth - 1)), j: rng.range(0, jmax) },
             2 => {
